@@ -77,7 +77,8 @@ EXTRA = [(b'x-a', b'b'), (b'accept', b'*/*'), (b'cookie', b'a=b'), (b'cookie', b
          (b'proxy-connection', b'x'), (b'', b'v'), (b'', b''), (b'X-Up', b'v'), (b'x-up', b'V'), (b' x', b'v'), (b'x ', b'v'), (b'x', b' v'), (b'x', b'v\t'), (b'x', b''),
          (b'x\n', b'v'), (b'x', b'\x0bv'), (b':status', b'200'), (b':status', b''), (b':method', b'GET'), (b':method', b'CONNECT'), (b':path', b''), (b':path', b'/x'),
          (b':scheme', b'http'), (b':authority', b'example.com'), (b':authority', b'other'), (b':protocol', b'websocket'), (b':unknown', b'v'), (b':', b''),
-         (b'content-length', b'5'), (b'authorization', b'secret'), (b'\xff\xfe', b'v'), (b'x', b'\xff\xfe')]       # (bytes >= 128 are only ever 0xFE / 0xFF: never valid UTF-8, the model's convention)
+         (b'content-length', b'5'), (b'authorization', b'secret'), (b' authorization', b's'), (b'Proxy-Authorization ', b's'), (b'cookie', b'   short=cookie      '),
+         (b'cookie ', b'a=b'), (b'cookie', b'a-cookie-of-twenty-b'), (b'cookie', b'a-cookie-of-19-byte'), (b'\xff\xfe', b'v'), (b'x', b'\xff\xfe')]       # (bytes >= 128 are only ever 0xFE / 0xFF: never valid UTF-8, the model's convention)
 
 
 def gen_list(rnd, kind):
